@@ -7,7 +7,7 @@
    logarithm chosen at random by the harness: equalities between generic
    elements then agree except with probability about 1/q. *)
 From Coq Require Import ZArith List Bool.
-From Kyber Require Import Algebra.Zq Algebra.Grp.
+From Kyber Require Import Algebra.Zq Algebra.Grp Group.GLV.
 Import ListNotations.
 Local Open Scope Z_scope.
 
@@ -92,7 +92,9 @@ Fixpoint blist_eqb (a b : list bool) : bool :=
 
 (* a case: group order, program, observed scalar values, observed partitions, observed verdicts *)
 Inductive case :=
-| CProg (id : Z) (q : Z) (ops : list op) (scalars : list Z) (p1 p2 pt : list Z) (verd : list bool).
+| CProg (id : Z) (q : Z) (ops : list op) (scalars : list Z) (p1 p2 pt : list Z) (verd : list bool)
+(* bn254 endomorphism split: (k, (k1, k2)) as returned by lattice.decompose *)
+| CGlv (id : Z) (items : list (Z * (Z * Z))).
 
 Definition check (c : case) : option Z :=
   match c with
@@ -103,6 +105,10 @@ Definition check (c : case) : option Z :=
          && zlist_eqb (partition q (g2 q s)) p2
          && zlist_eqb (partition q (gt q s)) pt
          && blist_eqb (verdicts q s) verd
+      then None else Some id
+  | CGlv id items =>
+      if forallb (fun it => let '(k1, k2) := glv_decompose (fst it) in
+                            (k1 =? fst (snd it)) && (k2 =? snd (snd it))) items
       then None else Some id
   end.
 
